@@ -265,7 +265,7 @@ pub fn run(args: &Args) -> Report {
                 let mut n = sub % 36; // 0 goes through the wrapper's guard
                 // one call in 400 produces a megabyte (size thresholds inside a kernel, e.g. another
                 // store instruction for large outputs), at every output alignment
-                let large = !cfg!(miri) && rng.chance(1, 400);
+                let large = !cfg!(miri) && idx < 1_000_000 && rng.chance(1, 400);
                 if large {
                     n = 16384 + rng.usize_below(48);
                 }
